@@ -22,7 +22,7 @@ from ..groups import GROUPS, norm_charge
 
 TOPOLOGIES = ["chain2", "chain3", "chain4", "triangle", "star", "double", "chain_double",
               "triangle_double", "braket1", "braket2", "braket2", "braket_double",
-              "triple", "chain_triple", "square"]
+              "triple", "chain_triple", "square", "bubble_chain", "bubble_single", "two_pairs"]
 
 
 def topology_edges(name):
@@ -38,6 +38,11 @@ def topology_edges(name):
         "triple": (2, [(0, 1), (0, 1), (0, 1)]),
         "chain_triple": (3, [(0, 1), (0, 1), (0, 1), (1, 2)]),
         "square": (4, [(0, 1), (1, 2), (2, 3), (0, 3)]),
+        # disconnected: a closed sub-network next to the rest (its value is a
+        # rank-0 array that still carries labels when multiplied in)
+        "bubble_chain": (4, [(0, 1), (0, 1), (2, 3)]),
+        "bubble_single": (3, [(0, 1), (0, 1)]),
+        "two_pairs": (4, [(0, 1), (2, 3)]),
         "braket1": (1, []),
         "braket2": (2, [(0, 1)]),
         "braket_double": (2, [(0, 1), (0, 1)]),
@@ -61,8 +66,13 @@ def gen_network(rng, cfg, labels):
         legs[b].append(name)
         idx[b].append(specs.conj_index_spec(ix))
     nd = 0
+    closed = {"bubble_chain": (0, 1), "bubble_single": (0, 1)}.get(cfg["topology"], ())
     for t in range(nt):
-        for _ in range(max(1, rng.choice(cfg["dangling"])) if braket else rng.choice(cfg["dangling"])):
+        if t in closed:
+            continue
+        ndang = max(1, rng.choice(cfg["dangling"])) if (braket or cfg["topology"].startswith("bubble")) \
+            else rng.choice(cfg["dangling"])
+        for _ in range(ndang):
             if nd >= 4:
                 break
             legs[t].append(f"d{nd}")
